@@ -76,3 +76,46 @@ package sigbits
 //@   ensures len(rst) == int(maxitem)
 //@   ensures forall i int32 :: 0 <= i && i < maxitem ==> rst[int(i)] == 1 + cntlt(sb.sigbits[int(keyStart):int(keyEnd)-1], int(keyEnd - keyStart) - 1, min + i)
 //@   assigns nothing
+
+// ---- C17: ShardByPrefix ----
+// dfs (the recursive closure ShardByPrefix$1) appends the shards of keys[s:e) to the captured
+// prefixes / keyCnts. B = keyCnts are the boundaries, L = prefixes the prefix lengths.
+
+//@ func ShardByPrefix$1
+//@   requires len(keys) == len(firstDiffs) + 1 && len(keys) < 1<<30 && maxSize >= 1
+//@   requires 0 <= s && s < e && int(e) <= len(keys)
+//@   requires forall i int :: 0 <= i && i < len(keys) ==> len(keys[i]) < 1<<27
+//@   requires len(keyCnts) >= 1 && keyCnts[len(keyCnts)-1] == s && len(prefixes) == len(keyCnts) - 1
+//@   requires regof(prefixes) != regof(keyCnts) && regof(prefixes) != regof(firstDiffs) && regof(keyCnts) != regof(firstDiffs)
+//@   ensures (regof(prefixes) == old(regof(prefixes)) || fresh(prefixes)) && (regof(keyCnts) == old(regof(keyCnts)) || fresh(keyCnts)) && regof(prefixes) != regof(keyCnts)
+//@   ensures len(keyCnts) > old(len(keyCnts)) && len(prefixes) == len(keyCnts) - 1
+//@   ensures forall k int :: 0 <= k && k < old(len(keyCnts)) ==> keyCnts[k] == old(keyCnts[k])
+//@   ensures forall k int :: 0 <= k && k < old(len(prefixes)) ==> prefixes[k] == old(prefixes[k])
+//@   ensures keyCnts[len(keyCnts)-1] == e
+//@   ensures forall j int :: old(len(keyCnts)) - 1 <= j && j < len(keyCnts) - 1 ==> s <= keyCnts[j] && keyCnts[j] < keyCnts[j+1] && keyCnts[j+1] <= e && keyCnts[j+1] - keyCnts[j] <= maxSize && prefixes[j] == mn(firstDiffs, int(keyCnts[j]), int(keyCnts[j+1]) - 1, int32(len(keys[int(keyCnts[j])])))
+//@   assigns prefixes, keyCnts, prefixes[*], keyCnts[*]
+//@   loop 1
+//@     invariant s <= i && i <= e - 1 && min == mn(firstDiffs, int(s), int(i), int32(len(keys[int(s)])))
+//@   loop 2
+//@     invariant s <= i && i <= e - 1 && 0 <= len(endsAt) && len(endsAt) <= int(i) - int(s) && fresh(endsAt)
+//@     invariant forall k int :: 0 <= k && k < len(endsAt) ==> s < endsAt[k] && endsAt[k] <= i
+//@     invariant forall k int :: 0 <= k && k < len(endsAt) - 1 ==> endsAt[k] < endsAt[k+1]
+//@   loop 3
+//@     invariant 0 <= i && i <= len(endsAt) && len(endsAt) >= 1 && len(endsAt) <= int(e) - int(old(s)) && endsAt[len(endsAt)-1] == e && fresh(endsAt)
+//@     invariant (regof(prefixes) == old(regof(prefixes)) || fresh(prefixes)) && (regof(keyCnts) == old(regof(keyCnts)) || fresh(keyCnts)) && regof(prefixes) != regof(keyCnts) && regof(endsAt) != regof(prefixes) && regof(endsAt) != regof(keyCnts)
+//@     invariant forall k int :: 0 <= k && k < len(endsAt) ==> old(s) < endsAt[k] && endsAt[k] <= e
+//@     invariant forall k int :: 0 <= k && k < len(endsAt) - 1 ==> endsAt[k] < endsAt[k+1]
+//@     invariant s == ite(i == 0, old(s), endsAt[ite(i == 0, 0, i-1)])
+//@     invariant len(keyCnts) >= old(len(keyCnts)) && len(keyCnts) >= 1 && len(prefixes) == len(keyCnts) - 1 && (i > 0 ==> len(keyCnts) > old(len(keyCnts)))
+//@     invariant old(s) <= s && s <= e && (i < len(endsAt) ==> s < endsAt[i])
+//@     invariant keyCnts[len(keyCnts)-1] == s
+//@     invariant forall k int :: 0 <= k && k < old(len(keyCnts)) ==> keyCnts[k] == old(keyCnts[k])
+//@     invariant forall k int :: 0 <= k && k < old(len(prefixes)) ==> prefixes[k] == old(prefixes[k])
+//@     invariant forall j int :: old(len(keyCnts)) - 1 <= j && j < len(keyCnts) - 1 ==> old(s) <= keyCnts[j] && keyCnts[j] < keyCnts[j+1] && keyCnts[j+1] <= s && keyCnts[j+1] - keyCnts[j] <= maxSize && prefixes[j] == mn(firstDiffs, int(keyCnts[j]), int(keyCnts[j+1]) - 1, int32(len(keys[int(keyCnts[j])])))
+
+//@ func ShardByPrefix returns (L, B)
+//@   requires len(keys) >= 1 && len(keys) < 1<<30 && maxSize >= 1
+//@   requires forall i int :: 0 <= i && i < len(keys) ==> len(keys[i]) < 1<<27
+//@   ensures len(L) >= 1 && len(B) == len(L) + 1 && B[0] == 0 && B[len(B)-1] == int32(len(keys))
+//@   ensures forall j int :: 0 <= j && j < len(L) ==> 0 <= B[j] && B[j] < B[j+1] && B[j+1] - B[j] <= maxSize
+//@   assigns nothing
